@@ -802,7 +802,26 @@ func (c *Client) Do(ctx context.Context, q Query) (err error) {
 		}
 	})
 	g.Go(func() error {
-		<-done
+		select {
+		case <-done:
+		case <-ctx.Done():
+			// Query is canceled or has failed on the sending side, but the
+			// receiver can be blocked in read: without read timeout, or
+			// inside of a packet body (no deadline there) forever.
+			// Interrupting it until it is done.
+			wake := time.NewTicker(time.Millisecond * 20)
+			for waiting := true; waiting; {
+				_ = c.conn.SetReadDeadline(time.Now())
+				select {
+				case <-done:
+					waiting = false
+				case <-wake.C:
+				}
+			}
+			wake.Stop()
+			// Not leaving expired deadline behind if connection is kept.
+			_ = c.conn.SetReadDeadline(time.Time{})
+		}
 		// Handling query cancellation if needed.
 		if (ctx.Err() != nil || receiveErr.Load()) && !gotException.Load() {
 			// Server stream was not read to the end, so connection can't be
